@@ -26,6 +26,7 @@ var registry = map[string]func(*rules.Ctx){
 	"C10": rules.C10,
 	"C12": rules.C12,
 	"C15": rules.C15,
+	"C18": rules.C18,
 	"C19": rules.C19,
 }
 
